@@ -56,6 +56,8 @@ var propCfgs = map[string]propCfg{
 	"C02": {Bounded: &boundedCfg{File: "C02_pagination_test.go", PkgDir: "render", Test: "TestBoundedC02",
 		What: "content part of C02: pages shown by the real Page.Render, walked from index 0, compared with the rows (complete, in order, once; static text and ordinary menu on every page; next/previous offered exactly on inner pages; error past the end; no panic)"}},
 	"C13": {Safety: true},
+	"C10": {Bounded: &boundedCfg{File: "C10_fs_listing_test.go", PkgDir: "db/fs", Test: "TestBoundedC10",
+		What: "listing clause of C10 on the filesystem backend (os.ReadDir and the iterator closure are outside the contracts): for every set of stored keys from a small universe and every prefix, the real Put/Dump/Next run in a scratch directory and the listing is compared with the reference - exactly the stored keys with that prefix, once each, with their values - with records of another data type and of a session whose id extends this one's stored alongside"}},
 }
 
 func main() {
